@@ -148,6 +148,35 @@ class Gen:
             return ('isvar', ('var', n), r.choice(['nil', t[1]]))
         return ('bool', True)
 
+    def selfref_scenario(self, scope):
+        """the right-hand side of an assignment is evaluated before the destination changes: a literal that reads the
+        variable it is assigned to (swap / rotate) sees the old members"""
+        r = self.r
+        elem = r.choice([('struct', self.cname), ('struct', self.sname), 'u8', 'i32', 'i64', ('opt', 'i32')])
+        shape = 'single' if (isinstance(elem, tuple) and elem[0] == 'struct' and r.random() < 0.5) else 'array'
+        t = ('array', 3, elem) if shape == 'array' else elem
+        x = self.fresh('x')
+        out = [('let', x, t, self.value_of(scope, t), True)]
+        if shape == 'array':
+            perm = r.choice([(1, 0, 2), (2, 0, 1), (1, 2, 0), (0, 2, 1), (2, 1, 0)])
+            out.append(('assign', ('var', x), ('array', elem, [('index', ('var', x), ('int', k, 'usize')) for k in perm])))
+        else:
+            fs = self.structs[elem[1]]
+            rot = fs[1:] + fs[:1]
+            out.append(('assign', ('var', x), ('struct', elem[1], [(f, ('cast', ft, ('field', ('var', x), g))) for (f, ft), (g, gt) in zip(fs, rot)])))
+        # observe every scalar member
+        for k in range(3 if shape == 'array' else 1):
+            base = ('index', ('var', x), ('int', k, 'usize')) if shape == 'array' else ('var', x)
+            if isinstance(elem, tuple) and elem[0] == 'struct':
+                for f, ft in self.structs[elem[1]]:
+                    out.append(('mark', ('field', base, f)))
+            elif isinstance(elem, tuple) and elem[0] == 'opt':
+                self.marks += 2
+                out.append(('if', ('isvar', base, 'nil'), [('markc', 6000 + self.marks)], [('mark', ('unwrap', base))]))
+            else:
+                out.append(('mark', base))
+        return ('block', None, out)
+
     def stmts(self, scope, depth, n, loops, labels, in_defer=False):
         r = self.r
         out = []
@@ -155,7 +184,7 @@ class Gen:
         for _ in range(n):
             c = r.random()
             if not in_defer and r.random() < 0.07:
-                out.append(self.agg_scenario(scope))
+                out.append(self.agg_scenario(scope) if r.random() < 0.6 else self.selfref_scenario(scope))
             elif c < 0.16:
                 t = r.choice(INT_NAMES)
                 name = self.fresh()
@@ -270,7 +299,7 @@ def gen_agg_program(rnd, idx):
     params = [{'name': 'p%d' % i, 'ty': rnd.choice(['u8', 'i32', 'u16', 'i64', 'bool'])} for i in range(rnd.randint(2, 3))]
     g.ret_ty = rnd.choice(['u8', 'i32', 'u64'])
     scope = [(p['name'], p['ty'], False) for p in params]
-    body = [g.agg_scenario(scope) for _ in range(rnd.randint(1, 2))]
+    body = [g.agg_scenario(scope) if rnd.random() < 0.6 else g.selfref_scenario(scope) for _ in range(rnd.randint(1, 2))]
     entry = {'name': 'e%d' % idx, 'params': params, 'ret': g.ret_ty, 'body': body, 'tail': g.int_expr(scope, g.ret_ty, 1)}
     return {'structs': g.structs, 'funcs': [entry], 'entry': entry['name']}
 
